@@ -30,7 +30,13 @@ func exhaustiveSets(depth int) [][]string {
 		"signers!fail:list", "sign=k1!fail:list", "sign=" + c1 + "!fail:list", "remove=k1!fail:remove", "remove=" + c1 + "!fail:remove", "remove=" + c1 + "!fail:list", "sign=k1!fail:sign",
 		// add-hardware-certificate without a key
 		"addhard=k0=-"}
-	starts := []string{"-", "k1:-", "k1:-," + c1 + ":63", "k1:-," + c2 + ":-,k2:6b"}
+	starts := []string{"-", "k1:-", "k1:-," + c1 + ":63", "k1:-," + c2 + ":-,k2:6b", "k1:-," + c1 + ":63,k2:6b"}
+	// … and the same starting agents with a hardware certificate already registered (2-operation
+	// sequences only): one that is also held by the underlying agent, one that is not
+	prefixes := []string{"", "addhard=" + c1 + "=-", "addhard=" + c3 + "=796b"}
+	if depth > 2 {
+		prefixes = prefixes[:1]
+	}
 	var seqs [][]string
 	var rec func(prefix []string)
 	rec = func(prefix []string) {
@@ -46,8 +52,17 @@ func exhaustiveSets(depth int) [][]string {
 	var sets [][]string
 	for _, noup := range []string{"0", "1"} {
 		for _, st := range starts {
-			for _, q := range seqs {
-				sets = append(sets, []string{noup, "-", st, strings.Join(q, ";")})
+			for _, pre := range prefixes {
+				if pre != "" && !strings.Contains(st, "k1:-") {
+					continue
+				}
+				for _, q := range seqs {
+					ops := strings.Join(q, ";")
+					if pre != "" {
+						ops = pre + ";" + ops
+					}
+					sets = append(sets, []string{noup, "-", st, ops})
+				}
 			}
 		}
 	}
